@@ -32,16 +32,20 @@ Fixpoint resps_eqb (a b : list resp) : bool :=
   end.
 
 (* implementation side of one event *)
-Record obs := { ob_resps : option (list resp);    (* None = request-level error *)
+Record obs := { ob_seen : bool;                    (* false: the server process was killed while it handled the request -
+                                                      nobody saw an answer; only the database file is compared *)
+                ob_resps : option (list resp);    (* None = request-level error *)
                 ob_next : Z;                       (* sqlite_sequence.seq + 1 after the event *)
                 ob_uids : list Z }.                (* managed_objects.uid, ascending, after the event *)
 
 Definition obs_agrees (o : option (list entry)) (st : store) (ob : obs) : bool :=
-  match o, ob_resps ob with
-  | Some es, Some rs => resps_eqb (map e_resp es) rs
-  | None, None => true
-  | _, _ => false
-  end && (next_uid st =? ob_next ob) && zlist_eqb (uids st) (ob_uids ob).
+  (if ob_seen ob then
+     match o, ob_resps ob with
+     | Some es, Some rs => resps_eqb (map e_resp es) rs
+     | None, None => true
+     | _, _ => false
+     end
+   else true) && (next_uid st =? ob_next ob) && zlist_eqb (uids st) (ob_uids ob).
 
 Fixpoint check_from (st : store) (h : list (event * obs)) : bool :=
   match h with
@@ -75,4 +79,6 @@ Definition model_trace (h : list (event * obs)) : list (option (list resp) * Z *
 Definition It (o : op) (g : bool) : item := {| i_op := o; i_gate := g |}.
 Definition Rq (who ver : Z) (cont : bool) (its : list item) : event :=
   EReq {| rq_who := who; rq_ver := ver; rq_cont := cont; rq_items := its |}.
-Definition Ob (rs : option (list resp)) (n : Z) (us : list Z) : obs := {| ob_resps := rs; ob_next := n; ob_uids := us |}.
+Definition Ob (rs : option (list resp)) (n : Z) (us : list Z) : obs := {| ob_seen := true; ob_resps := rs; ob_next := n; ob_uids := us |}.
+(* a request during which the server was killed: its item's gate says whether the transaction reached the file *)
+Definition ObK (n : Z) (us : list Z) : obs := {| ob_seen := false; ob_resps := None; ob_next := n; ob_uids := us |}.
